@@ -21,7 +21,7 @@ CLAIMED = {
                 "by TLC against Narrowest. Exhaustive over the partition the property names.",
         "design_ref": "DESIGN.md 3.2, 6 C19",
         "note": "trusts Big.tla byte arithmetic, numpy.dtype(...).name, and that the partition (powers of two +-1 "
-                "plus source constants +-1) has one point in every cell on which the implementation can change its answer",
+                "plus source constants +-1) has one point in every cell on which the implementation can change its answer; every pair also as NumPy integer scalars and, where exact, as floats; coordinates in [2^63, 2^64) at the INDX call site",
         "technique": "TLA+ contract + TLC trace validation of exhaustive partition calls; TLC L1 ladder=narrowest on the partition and "
                      "Apalache (SMT) ladder=narrowest for all integers",
     },
@@ -36,7 +36,7 @@ CLAIMED.update({
                 "the contract (Trace_SetKernels).",
         "design_ref": "DESIGN.md 3.4, 6 C08",
         "note": "exhaustive only up to the stated universe sizes; rank abstraction is monotone so order-only algorithms cannot tell; "
-                "trusts cython+gcc rebuild of the current source; beyond the small scope: strided / reversed / read-only operands, two views of one buffer, dense runs around every power-of-two block boundary up to 2048 (4096) and around every integer constant of the current .pyx source, and the long operands again from four threads at once",
+                "trusts cython+gcc rebuild of the current source; beyond the small scope: strided / reversed / read-only operands, two views of one buffer, dense runs around every power-of-two block boundary up to 2048 (4096) and around every integer constant of the current .pyx source, and the long operands again from four threads at once; multi-way unions of 7-40 (70) operands and around every constant of the source, every operand owning an element",
         "technique": "TLA+ contract + algorithm model (TLC exhaustive), TLC trace validation of exhaustive small-scope kernel calls",
     },
     "C09": {
@@ -64,7 +64,7 @@ CLAIMED.update({
                 "iws/rws (incl. sizes the saver never picks) are loaded by the real loader and compared with x; the size field is "
                 "checked with exact Big arithmetic for row totals from 2^30-1 to 2^33 using seek-only array stand-ins.",
         "design_ref": "DESIGN.md 3.6, 6 C11",
-        "note": "Big.tla; stand-in arrays whose tofile seeks; arity byte of an empty index is accepted as 0 or the true arity",
+        "note": "Big.tla; stand-in arrays whose tofile seeks; arity byte of an empty index is accepted as 0 or the true arity; 1-, 2- and 8-byte row-id words through the writer's dtype argument, incl. the boundary of the length word (254/255/256 row ids under one-byte words: the contract's pre-condition RwsOK negated means the writer must refuse)",
         "technique": "TLA+ independent encoder/decoder; TLC-generated files replayed into load; TLC trace validation of save bytes",
     },
     "C12": {
@@ -73,7 +73,7 @@ CLAIMED.update({
                 "additionally evaluates the acceptance logic on every prefix of the real bytes.",
         "design_ref": "DESIGN.md 3.6, 6 C12",
         "note": "relies on mmap refusing a mapping longer than the file (regular files on this filesystem); exhaustive over cut points, "
-                "bounded over files; system-call-level crash states of traced saves; concurrent saves",
+                "bounded over files; system-call-level crash states of traced saves; concurrent saves; every other cut point is loaded through a handle opened for update (r+b), the others through a read-only one",
         "technique": "TLC exhaustive crash-point model + exhaustive truncation replay on the real loader, validated by TLC",
     },
 })
@@ -164,7 +164,7 @@ CLAIMED.update({
                     "of every index and cube event and TLC requires them unchanged for non-mutating calls; TLC-generated sessions "
                     "(Session.tla: two cubes, three shared function objects, any order/repetition/combination) are replayed on the real "
                     "cubes and each output must be bit-identical to the aggregate alone and equal the contract value.",
-            "design_ref": "DESIGN.md 3.8, 6 C17", "note": "sha256 of tobytes()/repr is the notion of 'unchanged'; sessions of 6 calls; " + _CUBE_NOTE,
+            "design_ref": "DESIGN.md 3.8, 6 C17", "note": "sha256 of tobytes()/repr is the notion of 'unchanged'; sessions of 6 calls; the array cube's own statistics (stddev, quantiles, extremes, covariance, correlation) under the same digests; " + _CUBE_NOTE,
             "technique": "TLC-generated call sessions replayed on real cubes + TLC trace validation with argument digests"},
 })
 for e in ENGINES:
